@@ -13,6 +13,7 @@ CONSTANTS
   ChunkAbort = @ABORT@
   FixStopDone = @FIXA@
   FixClosed = @FIXB@
+  Cancels <- MCCancels
   Admit <- MCAdmit
 PROPERTIES Termination
 CHECK_DEADLOCK FALSE
